@@ -73,3 +73,150 @@ pub fn width_nontrivial(v: &RVal) -> bool {
         _ => false,
     }
 }
+
+/// number-encoding variants used by the relation checks
+pub fn num_variants(nonfinite: bool) -> Vec<RVal> {
+    let mut v = vec![
+        RVal::u(0),
+        RVal::f(0.0),
+        RVal::f(-0.0),
+        RVal::u(1),
+        RVal::Num(refmodel::RNum::I(1)),
+        RVal::f(1.0),
+        RVal::i(-1),
+        RVal::f(-1.0),
+        RVal::u(2),
+        RVal::f(1.5),
+        RVal::u(1 << 53),
+        RVal::f(9007199254740992.0),
+        RVal::u((1 << 53) + 1),
+        RVal::Num(refmodel::RNum::I((1 << 53) + 1)),
+        RVal::f(9007199254740994.0),
+        RVal::u(1 << 63),
+        RVal::f(9223372036854775808.0),
+        RVal::i(i64::MIN),
+        RVal::f(-9223372036854775808.0),
+        RVal::u(u64::MAX),
+        RVal::f(18446744073709551616.0),
+    ];
+    if nonfinite {
+        v.push(RVal::f(f64::NAN));
+        v.push(RVal::f(f64::INFINITY));
+        v.push(RVal::f(f64::NEG_INFINITY));
+    }
+    v
+}
+
+fn dedup(v: Vec<RVal>) -> Vec<RVal> {
+    let mut seen = std::collections::HashSet::new();
+    v.into_iter().filter(|x| seen.insert(x.clone())).collect()
+}
+
+/// universe for the relation checks (compare / contains / comparable key): base documents,
+/// number-encoding variants at the root and nested one and two levels down, prefix-sharing
+/// arrays and objects, containers differing only in length or deep inside.
+pub fn relation_universe(base: &[RVal], nonfinite: bool) -> Vec<RVal> {
+    let mut out: Vec<RVal> = base.to_vec();
+    let nv = num_variants(nonfinite);
+    for n in &nv {
+        out.push(n.clone());
+        out.push(RVal::Arr(vec![n.clone()]));
+        out.push(RVal::Arr(vec![RVal::u(1), n.clone()]));
+        out.push(RVal::obj(vec![("a", n.clone())]));
+        out.push(RVal::Arr(vec![RVal::Arr(vec![n.clone()])]));
+        out.push(RVal::obj(vec![("a", RVal::obj(vec![("b", n.clone())]))]));
+        out.push(RVal::Arr(vec![RVal::obj(vec![("a", n.clone())]), RVal::Null]));
+    }
+    // prefix-sharing arrays / objects
+    let elems = [RVal::Null, RVal::u(1), RVal::s("a"), RVal::s("ab"), RVal::s(""), RVal::Bool(true), RVal::Bool(false), RVal::arr(vec![]), RVal::obj(vec![])];
+    for a in &elems {
+        for b in &elems {
+            out.push(RVal::Arr(vec![a.clone(), b.clone()]));
+            out.push(RVal::Arr(vec![a.clone(), b.clone(), a.clone()]));
+            out.push(RVal::obj(vec![("a", a.clone()), ("ab", b.clone())]));
+            out.push(RVal::obj(vec![("", a.clone()), ("b", b.clone())]));
+        }
+        out.push(RVal::Arr(vec![a.clone()]));
+        out.push(RVal::obj(vec![("ab", a.clone())]));
+        out.push(RVal::obj(vec![("é", a.clone())]));
+    }
+    for s in ["", "a", "A", "ab", "b", "é", "a\u{1}", "a\u{1}\u{3}", "\u{0}", "💎"] {
+        out.push(RVal::s(s));
+        out.push(RVal::Arr(vec![RVal::s(s), RVal::s("b")]));
+    }
+    out.push(RVal::Bool(true));
+    out.push(RVal::Bool(false));
+    dedup(out)
+}
+
+/// replace every number equal to 1 by `to`
+pub fn retype_ones(v: &RVal, to: &RVal) -> RVal {
+    match v {
+        RVal::Num(n) if refmodel::val::num_cmp(n, &refmodel::RNum::U(1)) == std::cmp::Ordering::Equal => to.clone(),
+        RVal::Arr(a) => RVal::Arr(a.iter().map(|x| retype_ones(x, to)).collect()),
+        RVal::Obj(o) => RVal::Obj(o.iter().map(|(k, x)| (k.clone(), retype_ones(x, to))).collect()),
+        x => x.clone(),
+    }
+}
+
+/// documents derived from `a` the way C12 asks: drop one member/element, reorder, duplicate,
+/// nest one level deeper / shallower
+pub fn derived(a: &RVal) -> Vec<RVal> {
+    let mut out = vec![];
+    match a {
+        RVal::Arr(x) => {
+            for i in 0..x.len() {
+                let mut y = x.clone();
+                y.remove(i);
+                out.push(RVal::Arr(y));
+                if x[i].is_container() {
+                    out.push(x[i].clone());
+                }
+            }
+            if x.len() >= 2 {
+                let mut y = x.clone();
+                y.reverse();
+                out.push(RVal::Arr(y));
+            }
+            if !x.is_empty() {
+                let mut y = x.clone();
+                y.push(x[0].clone());
+                out.push(RVal::Arr(y));
+            }
+            out.push(RVal::Arr(vec![a.clone()]));
+        }
+        RVal::Obj(o) => {
+            for k in o.keys() {
+                let mut y = o.clone();
+                y.remove(k);
+                out.push(RVal::Obj(y));
+                if o[k].is_container() {
+                    out.push(o[k].clone());
+                }
+            }
+            out.push(RVal::obj(vec![("a", a.clone())]));
+            out.push(RVal::Arr(vec![a.clone()]));
+        }
+        s => {
+            out.push(RVal::Arr(vec![s.clone()]));
+            out.push(RVal::Arr(vec![s.clone(), s.clone()]));
+        }
+    }
+    out
+}
+
+pub fn containment_universe(base: &[RVal], retype_max_nodes: usize) -> Vec<RVal> {
+    let mut out = relation_universe(base, true);
+    let one_f = RVal::f(1.0);
+    let one_i = RVal::Num(refmodel::RNum::I(1));
+    for a in base {
+        if a.node_count() <= retype_max_nodes {
+            out.push(retype_ones(a, &one_f));
+            out.push(retype_ones(a, &one_i));
+            for d in derived(a) {
+                out.push(d);
+            }
+        }
+    }
+    dedup(out)
+}
